@@ -396,6 +396,86 @@ pub fn own_root(v: &J, signed_pos: bool) -> Result<OwnObj, String> {
     }
 }
 
+// -------------------------------------------------------------------------------------------
+// A hand-written Object that resolves paths ITSELF: `find` is overridden with its own walk and
+// `get` answers nothing, so the content is reachable only through `find` - at the root and, since
+// nested objects are of the same type, behind every `&dyn Object` the engine is handed.
+
+pub enum FOwn {
+    Leaf(Own),
+    Arr(FArr),
+    Obj(FObj),
+}
+pub struct FArr(pub Vec<FOwn>);
+pub struct FObj(pub Vec<(String, FOwn)>);
+impl FOwn {
+    fn val(&self) -> Value<'_> {
+        match self {
+            FOwn::Leaf(o) => o.val(),
+            FOwn::Arr(a) => Value::Array(a),
+            FOwn::Obj(o) => Value::Object(o),
+        }
+    }
+}
+impl Array for FArr {
+    fn iter(&self) -> Box<dyn Iterator<Item = Value<'_>> + '_> {
+        Box::new(self.0.iter().map(|v| v.val()))
+    }
+    fn len(&self) -> usize {
+        self.0.len()
+    }
+}
+impl Object for FObj {
+    fn get(&self, _key: &str) -> Option<Value<'_>> {
+        None
+    }
+    fn keys(&self) -> Vec<Cow<'_, str>> {
+        vec![]
+    }
+    fn len(&self) -> usize {
+        self.0.len()
+    }
+    fn find(&self, key: &str) -> Option<Value<'_>> {
+        let mut cur: &FObj = self;
+        let segs: Vec<&str> = key.split('.').collect();
+        for (n, seg) in segs.iter().enumerate() {
+            let (name, idx) = match seg.strip_suffix(']').and_then(|s| s.split_once('[')) {
+                Some((name, i)) => (name, Some(i.parse::<usize>().ok()?)),
+                None => (*seg, None),
+            };
+            let m = &cur.0.iter().find(|(k, _)| k == name)?.1;
+            let m = match idx {
+                Some(i) => match m {
+                    FOwn::Arr(a) => a.0.get(i)?,
+                    _ => return None,
+                },
+                None => m,
+            };
+            if n + 1 == segs.len() {
+                return Some(m.val());
+            }
+            match m {
+                FOwn::Obj(o) => cur = o,
+                _ => return None,
+            }
+        }
+        None
+    }
+}
+fn to_find(o: Own) -> FOwn {
+    match o {
+        Own::Arr(a) => FOwn::Arr(FArr(a.0.into_iter().map(to_find).collect())),
+        Own::Obj(ob) => FOwn::Obj(FObj(ob.0.into_iter().map(|(k, v)| (k, to_find(v))).collect())),
+        leaf => FOwn::Leaf(leaf),
+    }
+}
+pub fn find_root(v: &J) -> Result<FObj, String> {
+    match to_find(doc_own(v, false)?) {
+        FOwn::Obj(o) => Ok(o),
+        _ => Err("root must be an object".into()),
+    }
+}
+
 /// A hand-written Document (not an Object): resolves whole keys itself by delegating to the
 /// trait's default path walk on the owned root.
 pub struct OwnDoc(pub OwnObj);
